@@ -113,7 +113,7 @@ func regSem(sp *semSpec) {
 
 func init() {
 	regSem(&semSpec{id: "C02",
-		opts:    sg.Opts{MaxDepth: 3, Descs: true, PAddProps: 0.35, IntLimits: true, W: map[string]float64{"string": 4, "object": 3, "array": 2.5}},
+		opts:    sg.Opts{MaxDepth: 3, Descs: true, PAddProps: 0.35, IntLimits: true, AddPropsTrue: true, NullType: true, RootKinds: true, W: map[string]float64{"string": 4, "object": 3, "array": 2.5}},
 		classes: docgen.Classes{"addkey": true, "delopt": true, "bound": true},
 		own:     func(d docgen.Doc, mr model.Result) bool { return mr.V == model.Accept },
 		values:  true, byValue: true, addProps: true, defaults: false,
@@ -139,7 +139,7 @@ func init() {
 		rule: "random schemas over the supported feature space (objects, nesting<=3, arrays, formats, enums, refs, additionalProperties); documents valid by construction (maximal, minimal, random; boundary-seeking) plus model-accepted variants; each is executed by the compiled generated code; deciding observation = verdict ok AND path-wise comparison of json.Marshal(&v) and json.Marshal(v) with the input; distinct_nontrivial = distinct (schema signature, document class) pairs with >=1 deciding observation",
 	})
 	regSem(&semSpec{id: "C03",
-		opts:    sg.Opts{MaxDepth: 3, PNullable: 0.3, PAddProps: 0.35, W: map[string]float64{"map": 2.5}},
+		opts:    sg.Opts{MaxDepth: 3, PNullable: 0.3, PAddProps: 0.35, NullType: true, RootKinds: true, AddPropsTrue: true, W: map[string]float64{"map": 2.5}},
 		classes: docgen.Classes{"type": true, "nullok": true, "nullreq": true, "addkey": true},
 		own:     classOwner("type", "nullok", "addkey"),
 		values:  true,
@@ -147,28 +147,28 @@ func init() {
 		rule: "for every typed position (property, array element, additional-property value, through $ref) of valid documents: the value is replaced by values of every other JSON type (1.5 for integer) and, where null is allowed, by null; verdict vs model, and null must decode to nil/absent; distinct_nontrivial = distinct (schema signature, mutation class) pairs",
 	})
 	regSem(&semSpec{id: "C04",
-		opts:    sg.Opts{MaxDepth: 3, W: map[string]float64{"object": 5, "array": 2.5, "ref": 2.5, "compose": 2}, PNullable: 0.25},
+		opts:    sg.Opts{MaxDepth: 3, RootKinds: true, W: map[string]float64{"object": 5, "array": 2.5, "ref": 2.5, "compose": 2}, PNullable: 0.25},
 		classes: docgen.Classes{"required": true, "delopt": true, "nullreq": true},
 		own:     classOwner("required", "delopt", "nullok", "valid"),
 		nQuick:  500, nThor: 8000, valid: 5, perSite: 3, maxDocs: 120, minDec: 3000,
 		rule: "object schemas at root, nested, array-element, $ref and allOf/anyOf positions with 0-5 required keys; every single required key and every subset (<=4 keys) is removed from valid documents; optional keys removed and nullable keys set to null must stay accepted; verdict vs model",
 	})
 	regSem(&semSpec{id: "C06",
-		opts:    sg.Opts{MaxDepth: 2, NoFormats: true, W: map[string]float64{"string": 10, "integer": 0.5, "number": 0.5, "enum": 0.3, "ref": 2.5, "array": 1.5}, PNullable: 0.3},
+		opts:    sg.Opts{MaxDepth: 2, NoFormats: true, RootKinds: true, W: map[string]float64{"string": 10, "integer": 0.5, "number": 0.5, "enum": 0.3, "ref": 2.5, "array": 1.5}, PNullable: 0.3},
 		classes: docgen.Classes{"string": true},
 		own:     classOwner("string", "valid"),
 		nQuick:  400, nThor: 6000, valid: 4, perSite: 5, maxDocs: 150, minDec: 4000,
 		rule: "string schemas with every combination of minLength/maxLength/pattern (RE2∩ECMA pool) at required/optional/nullable/definition/array-item positions; strings of length min-1,min,max,max+1 (ASCII and 2/3/4-byte runes), matching and non-matching; verdict vs model (length in characters)",
 	})
 	regSem(&semSpec{id: "C07",
-		opts:    sg.Opts{MaxDepth: 3, W: map[string]float64{"array": 10, "object": 1.5, "ref": 2}, PNullable: 0.3},
+		opts:    sg.Opts{MaxDepth: 3, NullType: true, RootKinds: true, W: map[string]float64{"array": 10, "object": 1.5, "ref": 2, "untyped": 1.5}, PNullable: 0.3},
 		classes: docgen.Classes{"items": true, "string": true, "bound": true, "enum": true, "required": true},
 		own:     func(d docgen.Doc, mr model.Result) bool { return true },
 		nQuick:  400, nThor: 6000, valid: 4, perSite: 3, maxDocs: 150, minDec: 4000,
 		rule: "array schemas nested 1-3 deep with independent minItems/maxItems per level at required/optional/nullable positions; one level at a time made min-1/min/max/max+1 long; element-level single faults per element schema kind; verdict vs model",
 	})
 	regSem(&semSpec{id: "C08",
-		opts:    sg.Opts{MaxDepth: 2, W: map[string]float64{"enum": 10, "array": 2, "ref": 2}, PDefault: 0.4},
+		opts:    sg.Opts{MaxDepth: 2, RootKinds: true, W: map[string]float64{"enum": 10, "array": 2, "ref": 2}, PDefault: 0.4},
 		classes: docgen.Classes{"enum": true},
 		own:     classOwner("enum", "valid"),
 		post:    enumConstCensus,
